@@ -58,7 +58,11 @@ func vfCase(g *vfGen, s string) string {
 func (g *vfGen) genC12() {
 	pro := []string{"", "<!DOCTYPE html>", "<!doctype html>\n<html><head>", "<html>\n<head>\n", "<!-- <meta charset=fake-one> -->\n<html>",
 		"<html><head><title><meta charset=fake-two></title>", "<html><script>var a='<meta charset=fake3>';</script>",
-		"<html><head><meta name=\"viewport\" content=\"width=device-width\">", "<html><head><meta name=description content=\"charset is cool\">"}
+		"<html><head><meta name=\"viewport\" content=\"width=device-width\">", "<html><head><meta name=description content=\"charset is cool\">",
+		// character references in attribute values in front of the declaration (named with and without `;`, numeric,
+		// malformed, followed by `=`: attribute mode leaves those alone)
+		"<html><head><meta name=\"a&amp;b\" content=\"x &notit; y &not=z &#x26;#38; &#0; &#128; &#xD800; &bogus; &\">",
+		"<html><a href=\"?a=1&copy=2&amp;lt=3&lt\" title='&#60;meta charset=fake5&#62;'>", "<html><body data-x=&quot;charset=fake6&quot;>"}
 	n := g.pick(1500, 40000)
 	for i := 0; i < n; i++ {
 		l := g.label()
@@ -69,23 +73,39 @@ func (g *vfGen) genC12() {
 		sp := []string{"", " ", "  ", "\n", "\t"}
 		ws := func() string { return sp[g.intn(len(sp))] }
 		q := []string{"\"", "'", ""}[g.intn(3)]
+		lw := l // the label as written in the document
+		if i%6 == 5 && !strings.ContainsAny(l, "&;#") {
+			// the same label written with character references: what the document declares is the decoded label
+			var sb strings.Builder
+			for _, c := range []byte(l) {
+				switch g.intn(4) {
+				case 0:
+					fmt.Fprintf(&sb, "&#%d;", c)
+				case 1:
+					fmt.Fprintf(&sb, "&#x%X;", c)
+				default:
+					sb.WriteByte(c)
+				}
+			}
+			lw = sb.String()
+		}
 		var decl, kind string
 		switch g.intn(5) {
 		case 0, 1:
 			kind = "meta"
-			decl = fmt.Sprintf("<%s %s=%s%s%s%s>", vfCase(g, "meta"), vfCase(g, "charset"), q, l, q, []string{"", " /", "/"}[g.intn(3)])
+			decl = fmt.Sprintf("<%s %s=%s%s%s%s>", vfCase(g, "meta"), vfCase(g, "charset"), q, lw, q, []string{"", " /", "/"}[g.intn(3)])
 			if q == "" && strings.HasSuffix(decl, "/>") && !strings.HasSuffix(decl, " />") {
-				decl = fmt.Sprintf("<meta charset=%s >", l)
+				decl = fmt.Sprintf("<meta charset=%s >", lw)
 			}
 		case 2:
 			kind = "pragma"
-			decl = fmt.Sprintf("<%s %s=\"%s\" %s=\"text/html;%scharset%s=%s%s\">", vfCase(g, "meta"), vfCase(g, "http-equiv"), vfCase(g, "Content-Type"), vfCase(g, "content"), ws(), ws(), ws(), l)
+			decl = fmt.Sprintf("<%s %s=\"%s\" %s=\"text/html;%scharset%s=%s%s\">", vfCase(g, "meta"), vfCase(g, "http-equiv"), vfCase(g, "Content-Type"), vfCase(g, "content"), ws(), ws(), ws(), lw)
 		case 3:
 			kind = "pragma"
-			decl = fmt.Sprintf("<meta content='text/html; charset=\"%s\"' http-equiv='content-type'>", l)
+			decl = fmt.Sprintf("<meta content='text/html; charset=\"%s\"' http-equiv='content-type'>", lw)
 		default:
 			kind = "pragma"
-			decl = fmt.Sprintf("<meta content=\"text/html; charset='%s'; x=y\" data-x=1 http-equiv=content-type>", l)
+			decl = fmt.Sprintf("<meta content=\"text/html; charset='%s'; x=y\" data-x=1 http-equiv=content-type>", lw)
 		}
 		if i%9 == 0 {
 			// a long prologue: the declaration sits beyond byte 1024 but inside the default limit
